@@ -1,0 +1,5 @@
+//go:build !verif
+
+package media
+
+func verifPoint(name string, obj interface{}) {}
